@@ -5,5 +5,5 @@ for v in "$@"; do
   if [ ! -f /tmp/seed/$id-out/$v/patch.diff ]; then echo "PIPE $id-$v no-output"; continue; fi
   r=$(cd /verif && JOBS=6 tools/verify_seed.sh $id $v 2>&1 | tail -1)
   echo "PIPE $r"
-  case "$r" in *" confirmed") flock /root/vdev/.trylock /root/vdev/tools/try_seed_scratch.sh $id $v ;; esac
+  case "$r" in *" confirmed") flock /root/vdev3/.trylock /root/vdev3/tools/try_seed_scratch.sh $id $v ;; esac
 done
